@@ -138,6 +138,15 @@ func check(c *pbt.Ctx, cs Case) {
 	if !bytes.Equal(out, keep) {
 		c.Failf("result-overwritten", "the bytes returned by j2p (%d) changed during a later conversion\n json %s", len(out), js)
 	}
+	if cs.BufCap%5 == 1 || len(cs.JSON)%8 == 3 {
+		c.Step("the same j2p conversion from 8 goroutines at once")
+		c.Class("concurrent-callers")
+		if d := pbt.Concurrently(8, 40, keep, false, func() ([]byte, error) {
+			return cv.Do(context.Background(), desc, []byte(cs.JSON))
+		}); d != "" {
+			c.Failf("concurrent-differs", "j2p called concurrently on one converter differs from the call alone: %s\n json %s", d, js)
+		}
+	}
 	if len(out) > 4096 {
 		c.Class("output>4096")
 	}
@@ -486,7 +495,7 @@ var Prop = pbt.Register(pbt.Prop[Case]{
 	Name: "TestJSONToProto",
 	Rule: "generated proto3 schema + reference message rendered as JSON (members in drawn order, keyed by field name or JSON name, whitespace / escape / float spelling variants, null members for unset fields, map entries with a null value (denoting nothing), unknown members with scalar/array/object values, nested message sizes padded to 126..129 / 16382..16385); j2p output must be accepted by protobuf-go and proto.Equal to the message; a member with a wrong-kind value must yield an error; unknown member + DisallowUnknownField => ErrUnknownField; the returned bytes stay intact during a second conversion of the same document with other string contents; non-trivial = nesting >= 2 and a length-delimited payload >= 128 bytes",
 	Gen: func(t *rapid.T) Case {
-		sc := pmodel.GenSchema(t, pmodel.GenOpts{JSONNames: true, AllKinds: rapid.IntRange(0, 3).Draw(t, "allKinds") == 0, KeyKinds: pmodel.SupportedKeyKinds})
+		sc := pmodel.GenSchema(t, pmodel.GenOpts{JSONNames: true, Unpacked: true, AllKinds: rapid.IntRange(0, 3).Draw(t, "allKinds") == 0, KeyKinds: pmodel.SupportedKeyKinds})
 		comp, err := pmodel.Compile(sc.Render(), sc.Main)
 		if err != nil {
 			t.Fatalf("generator produced an invalid schema: %v", err)
